@@ -83,6 +83,15 @@ pub const CAP_QUERY: usize = usize::MAX;
 pub const CAP_QUERY_EXACT: usize = usize::MAX - 2;
 /// capacity sentinel: ample (worst case for the whole stream)
 pub const CAP_AMPLE: usize = usize::MAX - 1;
+/// capacity sentinels CAP_UNDER_BASE + k (k = 0..=7): a destination of exactly k units, BELOW the
+/// documented minimum - what a caller gets who hands over a String without spare capacity and
+/// grows it after OutputFull.  Such a call may panic (the history then ends without a verdict:
+/// `aborted_undersized`) or make no progress; if it returns, everything it reports must still
+/// be true, and the rest of the history must come out as if the call had not been made.
+pub const CAP_UNDER_BASE: usize = usize::MAX - 64;
+pub fn cap_under(k: usize) -> usize {
+    CAP_UNDER_BASE + k.min(7)
+}
 
 #[derive(Clone, Debug)]
 pub struct DecHistory {
@@ -136,7 +145,7 @@ impl DecHistory {
             "stream_hex": hex(&self.stream),
             "cuts": self.cuts,
             "last_on_empty_call": self.last_on_empty,
-            "caps": self.caps.iter().map(|c| match *c { CAP_QUERY => json!("query"), CAP_QUERY_EXACT => json!("query-exact"), CAP_AMPLE => json!("ample"), n => json!(n) }).collect::<Vec<_>>(),
+            "caps": self.caps.iter().map(|c| match *c { CAP_QUERY => json!("query"), CAP_QUERY_EXACT => json!("query-exact"), CAP_AMPLE => json!("ample"), n if (CAP_UNDER_BASE..CAP_UNDER_BASE + 8).contains(&n) => json!(format!("below-minimum-{}", n - CAP_UNDER_BASE)), n => json!(n) }).collect::<Vec<_>>(),
             "fill": self.fill,
             "align": self.align,
             "sinks_per_call": self.sinks_per_call.iter().map(|s| s.name()).collect::<Vec<_>>(),
@@ -160,6 +169,7 @@ impl DecHistory {
                 .map(|x| match x.as_str() {
                     Some("query") => CAP_QUERY,
                     Some("query-exact") => CAP_QUERY_EXACT,
+                    Some(t) if t.starts_with("below-minimum-") => CAP_UNDER_BASE + t["below-minimum-".len()..].parse::<usize>().unwrap_or(0).min(7),
                     Some(_) => CAP_AMPLE,
                     None => x.as_u64().unwrap() as usize,
                 })
@@ -340,6 +350,9 @@ pub struct DecOutcome {
     pub final_enc: Option<&'static Encoding>,
     pub faults: Vec<Fault>,
     pub completed: bool,
+    /// a call with a destination below the documented minimum panicked: the history ended there
+    /// and carries no verdict
+    pub aborted_undersized: bool,
 }
 
 impl DecOutcome {
@@ -430,6 +443,8 @@ pub struct DecDriver {
     pub guard: bool,
     g_src: Option<crate::guard::GuardRegion>,
     g_dst: Option<crate::guard::GuardRegion>,
+    /// set by the history interpreter around a call whose destination is below the documented minimum
+    tolerate_panic: bool,
 }
 
 pub struct StepOut {
@@ -441,7 +456,7 @@ pub struct StepOut {
 
 impl DecDriver {
     pub fn new() -> DecDriver {
-        DecDriver { buf8: Vec::new(), buf16: Vec::new(), srcbuf: Vec::new(), exact_alloc: false, stop_after_calls: None, guard: crate::guard::enabled(), g_src: None, g_dst: None }
+        DecDriver { buf8: Vec::new(), buf16: Vec::new(), srcbuf: Vec::new(), exact_alloc: false, stop_after_calls: None, guard: crate::guard::enabled(), g_src: None, g_dst: None, tolerate_panic: false }
     }
 
     /// One decode call with all per-call monitors.  Output units are appended to `out`.
@@ -660,7 +675,11 @@ impl DecDriver {
         };
         let (res, read, written, flag) = match result {
             Err(msg) => {
-                out.faults.push(Fault { kind: FaultKind::Panic, msg: format!("panic: {}", msg), call_index });
+                if self.tolerate_panic {
+                    out.aborted_undersized = true;
+                } else {
+                    out.faults.push(Fault { kind: FaultKind::Panic, msg: format!("panic: {}", msg), call_index });
+                }
                 for (k, m) in faults {
                     out.faults.push(Fault { kind: k, msg: m, call_index });
                 }
@@ -764,6 +783,7 @@ impl DecDriver {
                 let repl = h.repl_for_call(call_index);
                 let ample = if sink.is_utf16() { n + 16 } else { 3 * n + 32 };
                 let mut from_query = false;
+                let mut undersized = false;
                 let cap = if h.caps.is_empty() {
                     ample
                 } else {
@@ -783,10 +803,14 @@ impl DecDriver {
                         }
                     } else if c == CAP_AMPLE {
                         ample
+                    } else if (CAP_UNDER_BASE..CAP_UNDER_BASE + 8).contains(&c) {
+                        undersized = true;
+                        c - CAP_UNDER_BASE
                     } else {
                         c.max(sink.min_cap())
                     }
                 };
+                self.tolerate_panic = undersized;
                 before_call(dec, consumed);
                 let (l8, l16) = (out.out8.len(), out.out16.len());
                 let so = match self.step(dec, sink, repl, src, cap, last, h.fill, h.align, &mut out, call_index) {
@@ -818,6 +842,15 @@ impl DecDriver {
                     out.faults.push(Fault { kind: FaultKind::MaxQuery, msg: format!("OutputFull although dst.len() {} was the max_* answer for {} input bytes", cap, src.len()), call_index });
                 }
                 let stream_ends = last && so.res == Res::InputEmpty;
+                if undersized && so.read == 0 && so.written == 0 && so.res == Res::OutputFull {
+                    // below the minimum no progress is owed; the next capacity of the pattern follows
+                    call_index += 1;
+                    if call_index > call_limit {
+                        out.faults.push(Fault { kind: FaultKind::Progress, msg: format!("caller loop did not terminate within {} calls for {} bytes", call_limit, n), call_index });
+                        break 'chunks;
+                    }
+                    continue;
+                }
                 if !stream_ends && so.read == 0 && so.written == 0 && !matches!(so.res, Res::Malformed(..)) && !(so.res == Res::InputEmpty && src.is_empty()) {
                     // no input consumed, no output produced, no error reported
                     out.faults.push(Fault { kind: FaultKind::Progress, msg: format!("call made no progress: {:?} read 0 written 0 with src.len() {} dst.len() {}", so.res, src.len(), cap), call_index });
